@@ -297,7 +297,18 @@ fn observe(sys: &Sys) -> String {
     drop(st);
     let al = sys.node.allowlist().unwrap_or_default();
     let albits: Vec<String> = ADDRS.iter().map(|a| coq_bool(al.iter().any(|x| x.contains(a))).to_string()).collect();
-    format!("({}, {}, {}, {})", coq_list(&kinds), hwm, coq_list(&albits), ninv)
+    let st = sys.node.get_state();
+    let iss: Vec<String> = (1..=5u64)
+        .map(|h| st.issued_invoices.get(&PaymentHash(issued_hash(h))).map(|p| format!("Some {}", p.amount_msat)).unwrap_or("No".to_string()))
+        .collect();
+    format!("({}, {}, {}, {}, {})", coq_list(&kinds), hwm, coq_list(&albits), ninv, coq_list(&iss))
+}
+
+/// the payment hashes of the invoices this domain has the node issue (apart from the keysend hashes)
+fn issued_hash(h: u64) -> [u8; 32] {
+    let mut x = [0xEEu8; 32];
+    x[0] = h as u8;
+    x
 }
 
 fn run(args: &Args) {
@@ -319,6 +330,7 @@ fn run(args: &Args) {
         let mut c10: Vec<String> = vec![];
         let mut c11: Vec<String> = vec![];
         let mut hash_ctr = 0u8;
+        let mut last_issued: Option<u64> = None;
         for _ in 0..len {
             let dbid = 1 + rng.below(4);
             let before_fp = fingerprint_full(&sys.node);
@@ -502,7 +514,21 @@ fn run(args: &Args) {
                     let r = catch_unwind(AssertUnwindSafe(|| node.set_allowlist(&list).is_ok()));
                     (format!("SetAllow {} {}", k, coq_bool(!with_bad)), json!(["set_allowlist", list]), r.map_err(|_| ()))
                 }
-                15 | 16 => {
+                16 | 17 if choice == 16 || rng.chance(1, 2) => {
+                    // the node issues an invoice (SignInvoice): hash 1..5, a few amounts, everything else
+                    // fixed, so that the same (hash, amount) is the same invoice
+                    // mostly a hash that already has an issued invoice (the same invoice again, or another one)
+                    let h = match last_issued {
+                        Some(h0) if rng.chance(2, 3) => h0,
+                        _ => 1 + rng.below(5),
+                    };
+                    last_issued = Some(h);
+                    let a = *rng.pick(&[0u64, 1_000, 1_000, 100_000]);
+                    let raw = make_raw_bolt11(issued_hash(h), a, 1_000);
+                    let r = catch_unwind(AssertUnwindSafe(|| node.sign_bolt11_invoice(raw).is_ok()));
+                    (format!("IssueInvoice {} {}", h, a), json!(["sign_invoice", h, a]), r.map_err(|_| ()))
+                }
+                15 => {
                     hash_ctr += 1;
                     let mut h = [0u8; 32];
                     h[0] = hash_ctr;
